@@ -24,7 +24,8 @@ Res(acc, err, vres, force, limit, reqFin) == [err |-> err, accepted |-> acc, vre
 AcceptRes == Res(TRUE, FALSE, "", FALSE, 0, FALSE)
 ValSet == {Res(a, e, vr, f, l, rf) : a \in BOOLEAN, e \in BOOLEAN, vr \in {"", "r1"}, f \in BOOLEAN, l \in {0, 5}, rf \in BOOLEAN}
 ValFew == {AcceptRes, Res(FALSE, FALSE, "r1", FALSE, 0, FALSE), Res(TRUE, TRUE, "", FALSE, 0, FALSE), Res(TRUE, FALSE, "r1", TRUE, 9, TRUE),
-           Res(FALSE, FALSE, "", TRUE, 0, FALSE), Res(FALSE, FALSE, "", FALSE, 5, FALSE),        \* rejections that also carry a pause condition (forced / limit already reached)
+           Res(FALSE, FALSE, "", TRUE, 0, FALSE), Res(FALSE, FALSE, "", FALSE, 5, FALSE),
+           Res(TRUE, FALSE, "r0", FALSE, 0, FALSE),                                              \* a voucher result equal to the latest one of the "prog" records: recorded again        \* rejections that also carry a pause condition (forced / limit already reached)
            Res(TRUE, FALSE, "", FALSE, 5, FALSE), Res(TRUE, FALSE, "", FALSE, 9, FALSE), Res(TRUE, FALSE, "r3", FALSE, 0, TRUE),
            Res(TRUE, FALSE, "", FALSE, 9, TRUE)}
 
